@@ -16,7 +16,7 @@ use serde::{Deserialize, Serialize};
 use std::sync::Arc;
 use vrp_core::construction::features::{
     CapacityFeatureBuilder, JobReadValueFn, MinimizeUnassignedBuilder, TransportFeatureBuilder,
-    create_maximize_total_job_value_feature, create_minimize_tours_feature,
+    create_maximize_total_job_value_feature, create_maximize_tours_feature, create_minimize_tours_feature,
 };
 use vrp_core::construction::heuristics::{InsertionContext, InsertionSuccess, UnassignmentInfo};
 use vrp_core::models::common::{Demand, Schedule, SingleDimLoad, TimeWindow};
@@ -187,6 +187,8 @@ pub enum Layer {
     Distance,
     Cost,
     Value,
+    /// the rarely used opposite of `Tours`: fitness = -(number of tours)
+    MaxTours,
 }
 
 impl Layer {
@@ -197,6 +199,7 @@ impl Layer {
             Layer::Distance => "minimize-distance",
             Layer::Cost => "minimize-cost",
             Layer::Value => "maximize-value",
+            Layer::MaxTours => "maximize-tours",
         }
     }
 }
@@ -477,6 +480,7 @@ fn build_goal(spec: &MicroSpec, transport: Arc<SimpleTransportCost>) -> Result<v
         let feature = match layer {
             Layer::Unassigned => MinimizeUnassignedBuilder::new(layer.name()).build(),
             Layer::Tours => create_minimize_tours_feature(layer.name()),
+            Layer::MaxTours => create_maximize_tours_feature(layer.name()),
             Layer::Distance => tfb().build_minimize_distance(),
             Layer::Cost => tfb().build_minimize_cost(),
             Layer::Value => create_maximize_total_job_value_feature(
